@@ -14,7 +14,7 @@ CODE_OF_ERR = {v: k for k, v in ERR_CODES.items()}
 
 
 class Env:
-    """4 nodes attached to the IR owning the CFG, 1 attached to another IR, 1 detached"""
+    """4 nodes attached to the IR owning the CFG, 1 attached to another IR, 2 detached (a proxy and a code block)"""
 
     def __init__(self, g):
         self.g = g
@@ -28,7 +28,7 @@ class Env:
         bi2 = g.ByteInterval(size=64, section=s2)
         self.nodes = [g.CodeBlock(size=1, offset=0, byte_interval=bi), g.CodeBlock(size=1, offset=4, byte_interval=bi),
                       g.ProxyBlock(module=m), g.CodeBlock(size=2, offset=8, byte_interval=bi),
-                      g.CodeBlock(size=1, offset=0, byte_interval=bi2), g.ProxyBlock()]
+                      g.CodeBlock(size=1, offset=0, byte_interval=bi2), g.ProxyBlock(), g.CodeBlock(size=1, offset=2)]
         self.num = {id(n): i + 1 for i, n in enumerate(self.nodes)}
         T = g.Edge.Type
         self.labels = [None, g.Edge.Label(T.Branch, False, False), g.Edge.Label(T.Branch, True, False), g.Edge.Label(T.Branch, False, True),
@@ -53,8 +53,8 @@ def rand_edge(rng, pool):
     # a small pool of endpoints and labels makes re-adding, parallel edges and self-loops frequent
     if pool and rng.random() < 0.5:
         return rng.choice(pool)
-    s = rng.choice([1, 1, 2, 3, 4, 5, 6])
-    d = s if rng.random() < 0.15 else rng.choice([1, 2, 2, 3, 4, 5, 6])
+    s = rng.choice([1, 1, 2, 3, 4, 5, 6, 7])
+    d = s if rng.random() < 0.15 else rng.choice([1, 2, 2, 3, 4, 5, 6, 7])
     return (s, d, rng.choice([0, 0, 1, 2, 3, 4, 5, 6, 7, 8]))
 
 
@@ -78,7 +78,7 @@ def run_history(ctx, g, rng, length):
             problems.append("iteration/len %s (len %d) but the set is %s" % (got_edges, len(cfg), want))
         if not full:
             return
-        for n in range(1, 7):
+        for n in range(1, 8):
             node = env.nodes[n - 1]
             oe = sorted(env.canon_edge(e) for e in cfg.out_edges(node))
             ie = sorted(env.canon_edge(e) for e in cfg.in_edges(node))
